@@ -41,24 +41,32 @@ Proof. exact readonly_run. Qed.
 (* The coherence invariant between cache and disk (Proofs/OverlayCoh.v): every node reachable in the
    cache sits at its own path in its layers with the whiteout/dir flags the disk has, starts with the
    top-most candidate layer of that path, cuts the same directory stack as the candidates do, and -
-   once loaded - has a child exactly for the names some directory of that stack holds.
+   once loaded - has a child exactly for the names some directory of that stack holds; every backing
+   inode after the first one is a directory.
    (a) it holds for a freshly imported overlay over any layer contents; *)
 Theorem C10_coherent_fresh : forall u ls nx, Forall layer_ok (u :: ls) -> Coherent (fresh (Some u) ls nx).
 Proof. exact fresh_coherent. Qed.
 (* (b) it is preserved by every operation of the proved list [coh_op]:
-       lookup, getattr, readdir, read, readlink, open(O_RDONLY), getxattr, listxattr,
-       MKDIR, CREATE, MKNOD, SYMLINK, UNLINK
-   (these include: copy-up of the whole chain of parent directories, of a parent that is a file or a
-   symlink, removal of an upper whiteout, the opaque marker of the repaired do_mkdir, the whiteout decision of the repaired do_rm with
-   lower_has_child), by the tree walk of a dump, and hence by every history over those operations.
-   NOT yet in the list: link, rmdir, open for writing, write, chmod, truncate, setxattr, removexattr. *)
+       lookup, getattr, readdir, read, readlink, getxattr, listxattr,
+       MKDIR, CREATE, MKNOD, SYMLINK, UNLINK, RMDIR,
+       OPEN (every flag: read-only, write, read-write, truncating, appending), WRITE, CHMOD, TRUNCATE,
+       SETXATTR / REMOVEXATTR of every name except the overlay's own opaque markers
+   (these include: copy-up of the whole chain of parent directories, copy-up of a regular file or a
+   symlink with its lower backing inodes dropped, removal of an upper whiteout, the opaque marker of
+   the repaired do_mkdir, the whiteout decision of the repaired do_rm with lower_has_child, and
+   rmdir of a merged directory whose upper part holds only whiteouts, which are deleted first), by
+   the tree walk of a dump, and hence by every history over those operations, successful or failing.
+   NOT in the list: LINK, RENAME (not modelled), SETXATTR / REMOVEXATTR of an opaque marker name. *)
 Theorem C10_coherent_step : forall o s, coh_op o = true -> Coherent s -> Coherent (run_op o s).
 Proof. exact coherent_step. Qed.
 Theorem C10_coherent_history : forall ops, coh_history ops = true -> forall s, Coherent s -> Coherent (run_dumps ops s).
 Proof. exact coherent_history. Qed.
 Example C10_coh_op_list :
   coh_op (OMkdir ["a"; "b"] 493) = true /\ coh_op (OLookup ["a"]) = true /\ coh_op (OReaddir []) = true /\
-  coh_op (OCreate ["a"] 420) = true /\ coh_op (OSymlink ["a"] []) = true /\ coh_op (OUnlink ["a"]) = true /\ coh_op (ORmdir ["a"]) = false /\ coh_op (OWrite ["a"] 0 []) = false.
+  coh_op (OCreate ["a"] 420) = true /\ coh_op (OSymlink ["a"] []) = true /\ coh_op (OUnlink ["a"]) = true /\ coh_op (ORmdir ["a"]) = true /\ coh_op (OWrite ["a"] 0 []) = true /\
+  coh_op (OOpen ["a"] OF_WT) = true /\ coh_op (OChmod ["a"] 0) = true /\ coh_op (OTruncate ["a"] 0) = true /\
+  coh_op (OSetxattr ["a"] "user.k" []) = true /\ coh_op (OSetxattr ["a"] "trusted.overlay.opaque" []) = false /\
+  coh_op (OLink ["a"] ["b"]) = false.
 Proof. repeat split. Qed.
 
 (* Invariant of the node cache: a backing inode flagged in_upper_layer lives in layer 0 and only
